@@ -62,7 +62,12 @@ def cirbo_frame(tb) -> str | None:
     """Innermost traceback frame that lies in the cirbo tree under test (or a shim)."""
     found = None
     root = env.REPO + os.sep
-    for fs in traceback.extract_tb(tb):
+    frames = traceback.extract_tb(tb)
+    own = (os.path.join(VERIF_DIR, 'props') + os.sep, os.path.join(VERIF_DIR, 'vlib') + os.sep)
+    if frames and os.path.abspath(frames[-1].filename).startswith(own):
+        # raised by harness code itself (for instance inside a callback that cirbo invoked): a harness error
+        return None
+    for fs in frames:
         if os.path.abspath(fs.filename).startswith(root):
             found = f'{os.path.basename(fs.filename)}:{fs.name}'
     return found
